@@ -87,6 +87,8 @@ struct Inst {
 	PlanVec actualPlan;
 	bool actualPlanKnown = false;
 
+	bool lastDelValid = false; Method lastDelM = Method::NONE; uint8_t lastDelSid = 0;   // the delivery before the current one (same API call)
+
 	bool active() const { return cur >= 0; }
 	// can the harness observe deliveries to this state?  States with callbacks: always; states that define
 	// none: only through the verbose log while a logger is attached
@@ -172,6 +174,7 @@ struct World {
 		push(e);
 		s.evBegin = events.size();
 		in.delOpen = false;
+		in.lastDelValid = false;
 		in.actualPlanKnown = false;
 		if (isActivationOp(op)) in.tasksAdded = false;
 		if (op == OP_LOAD && a != 255 && in.cur >= 0) {
@@ -191,22 +194,34 @@ struct World {
 		Ev e; e.kind = EV_SUB; e.inst = in.slot; e.code = static_cast<uint8_t>(m); e.sid = sid; e.inj = inj;
 		push(e);
 		stats.add2("callback_events", mname(m));
-		const unsigned expectSubs = (m == Method::PLAN_SUCCEEDED || m == Method::PLAN_FAILED) ? 1 : cfg::K + 1;
+		// the state class itself may leave a callback out (CFG_PARTIAL); its injections always define everything
+		const unsigned expectSubs = (m == Method::PLAN_SUCCEEDED || m == Method::PLAN_FAILED) ? 1 : cfg::K + (cfg::defines(sid, m) ? 1 : 0);
 		if (!in.delOpen || in.delM != m || in.delSid != sid || in.delOrder.size() >= expectSubs) {
 			closeDelivery(in);
+			// C15 "exactly once": with a state class that omits the callback a delivery consists of the injection's
+			// callback alone, so a repeated invocation shows up as the same delivery twice in a row.  Lifecycle and
+			// cycle callbacks are never legitimately delivered twice in a row to one state within one API call
+			// (guards are: consecutive rounds).
+			if (cfg::PARTIAL && in.lastDelValid && in.lastDelM == m && in.lastDelSid == sid && m != Method::ENTRY_GUARD && m != Method::EXIT_GUARD
+				&& m != Method::PLAN_SUCCEEDED && m != Method::PLAN_FAILED)
+				V("C15", fmt("not-exactly-once|%s|k=%u", mname(m), cfg::K), fmt("%s of state %u was delivered twice in a row within one %s call; %s", mname(m), sid, opName(in.st.op), tail().c_str()));
 			// C16: a delivery is announced by exactly one method record, before any user code of it
 			if (HAS_LOG) {
 				if (in.loggerAttached) {
 					if (in.logExpectMethod && in.logM == m && in.logSid == sid) stats.add("c16_deliveries_matched_to_records");
 					else {
 						if (in.logExpectMethod) flushMethodRecord(in, "another delivery");
-						V("C16", fmt("delivery-without-method-record|%s", mname(m)), fmt("%s of %u delivered with a logger attached but no method record announced it; %s", mname(m), sid, tail().c_str()));
+						// a record is owed when the state's class defines the callback (always in verbose builds)
+						if (cfg::defines(sid, m) || HAS_VERBOSE)
+							V("C16", fmt("delivery-without-method-record|%s", mname(m)), fmt("%s of %u delivered with a logger attached but no method record announced it; %s", mname(m), sid, tail().c_str()));
+						else stats.add("c16_deliveries_to_injections_only_without_record");
 					}
 					in.logExpectMethod = false;
 				} else if (in.logExpectMethod) flushMethodRecord(in, "delivery without logger");
 			}
 			in.delOpen = true; in.delM = m; in.delSid = sid; in.delOrder.clear();
 			in.delOrder.push_back(inj);
+			in.lastDelValid = true; in.lastDelM = m; in.lastDelSid = sid;
 			onDelivery(in, m, sid);
 		} else {
 			if (in.logExpectMethod) flushMethodRecord(in, "user code of the same delivery");
@@ -223,6 +238,8 @@ struct World {
 		// records for states that define no callbacks (bare states, a headless root) are legitimate in
 		// verbose builds, and for the react family in every logging build
 		if (!in.sees(in.logSid) || !visibleState(in.logSid)) { stats.add("c16_records_for_invisible_states"); return; }
+		// a head whose class leaves a plan outcome callback out: the event happens, nothing observable runs
+		if (!cfg::defines(in.logSid, in.logM) && (in.logM == Method::PLAN_SUCCEEDED || in.logM == Method::PLAN_FAILED)) { stats.add("c16_records_for_undefined_outcome_callbacks"); return; }
 		V("C16", fmt("method-record-without-delivery|%s", mname(in.logM)), fmt("method record (%u,%s) was not followed by that delivery (next: %s); %s", in.logSid, mname(in.logM), because, tail().c_str()));
 	}
 
@@ -297,17 +314,18 @@ struct World {
 		// C15: order of injection / own callbacks within one delivery
 		if (m != Method::PLAN_SUCCEEDED && m != Method::PLAN_FAILED) {
 			const unsigned K = cfg::K;
+			const bool own = cfg::defines(sid, m);
 			std::vector<uint8_t> pre, post;
 			for (unsigned i = 1; i <= K; ++i) pre.push_back(static_cast<uint8_t>(i));
-			pre.push_back(0);
-			post.push_back(0);
+			if (own) pre.push_back(0);
+			if (own) post.push_back(0);
 			for (unsigned i = K; i >= 1; --i) post.push_back(static_cast<uint8_t>(i));
 			const auto& got = in.delOrder;
 			auto seq = [&]() { std::string s; for (auto x : got) { s += x ? "I" + std::to_string(x) : std::string("S"); s += ' '; } return s; };
-			bool once = got.size() == K + 1;
-			if (once) { std::vector<uint8_t> sorted = got; std::sort(sorted.begin(), sorted.end()); for (unsigned i = 0; i <= K; ++i) if (sorted[i] != i) once = false; }
+			bool once = got.size() == pre.size();
+			if (once) { std::vector<uint8_t> sorted = got, want = pre; std::sort(sorted.begin(), sorted.end()); std::sort(want.begin(), want.end()); once = sorted == want; }
 			if (!once)
-				V("C15", fmt("not-exactly-once|%s|k=%u", mname(m), K), fmt("delivery of %s to state %u ran [%s], expected each of %u injections and the state exactly once; %s", mname(m), sid, seq().c_str(), K, tail().c_str()));
+				V("C15", fmt("not-exactly-once|%s|k=%u", mname(m), K), fmt("delivery of %s to state %u ran [%s], expected each of %u injections%s exactly once; %s", mname(m), sid, seq().c_str(), K, own ? " and the state" : " (the state class does not define it)", tail().c_str()));
 			else switch (m) {
 			case Method::ENTRY_GUARD: case Method::ENTER: case Method::REENTER: case Method::PRE_UPDATE: case Method::UPDATE: case Method::PRE_REACT: case Method::REACT:
 				if (got != pre) V("C15", fmt("order|%s|k=%u", mname(m), K), fmt("%s of state %u ran [%s], expected I1..Ik then S; %s", mname(m), sid, seq().c_str(), tail().c_str()));
@@ -764,9 +782,12 @@ inline void World::closePlanWindow(Inst& in) {
 	// headless machines: plan outcomes are invisible.  Without a logger a plan that emptied during the
 	// step was either consumed by fires (then a guard round evaluating the last fired task follows in
 	// this very call) or cleared after an unobservable planFailed.
-	if (!cfg::HEAD) {
-		const bool failPossible = in.anyFailMay();
-		const bool succPossible = in.anySuccMay() && before.empty();
+	// The same holds for a root head whose class leaves planSucceeded() or planFailed() out.
+	constexpr bool failVisible = cfg::HEAD && cfg::defines(ROOT, Method::PLAN_FAILED);
+	constexpr bool succVisible = cfg::HEAD && cfg::defines(ROOT, Method::PLAN_SUCCEEDED);
+	if (!failVisible || !succVisible) {
+		const bool failPossible = !failVisible && in.anyFailMay();
+		const bool succPossible = !succVisible && in.anySuccMay() && before.empty();
 		if ((succPossible || failPossible) && in.tasksAdded) in.clearStatuses(false);   // reports may have been wiped with the plan
 		if (!s.firesFromLog && !before.empty() && after.empty() && failPossible) {
 			const Task& lastRemoved = before[removedIdx.back()];
@@ -853,7 +874,7 @@ inline void World::closePlanWindow(Inst& in) {
 			V("C08", "head-task-did-not-fire", fmt("state %d (active) reported success, the first task %s has it as origin, no failure was reported, yet the task did not fire; plan after %s; %s", cur0, before[0].str().c_str(), planStr(after).c_str(), tail().c_str()));
 	}
 	// converse: failure of the active state with a non-empty plan must deliver planFailed (visible with a root head only)
-	if (cfg::HEAD && !before.empty() && s.curReportedFailure && !s.userClearAfterReport && in.tasksAdded && s.outcomes == 0) {
+	if (failVisible && !before.empty() && s.curReportedFailure && !s.userClearAfterReport && in.tasksAdded && s.outcomes == 0) {
 		stats.add("converse_planFailed_obligations");
 		V("C09", "planFailed-not-delivered", fmt("active state %d reported failure with plan %s but planFailed was not delivered in this cycle; %s", cur0, planStr(before).c_str(), tail().c_str()));
 	}
